@@ -37,8 +37,19 @@ import (
 
 // judgeURL returns ("", "") when u is allowed, otherwise the root-cause key and a message.
 func judgeURL(u string, allowed map[string]bool) (string, string) {
+	return judgeURLWithLog(u, allowed, nil)
+}
+
+// judgeURLWithLog is judgeURL for a run that had an event log: logURIs are the URI locators the log
+// holds. Such a URI may only be requested when it is in allowed, i.e. when a URI locator is what the
+// log's precedence selects (first matching locator kind in the order raw > variable > local > URI)
+// and no fetch was forced.
+func judgeURLWithLog(u string, allowed, logURIs map[string]bool) (string, string) {
 	if allowed[u] {
 		return "", ""
+	}
+	if logURIs[u] {
+		return "C16/I1/eventlog-uri-not-selected", fmt.Sprintf("GET %s: a URI locator of the event log was fetched although it is not the locator the log's precedence and manufacturer filter select (or a fetch from the bucket was forced)", u)
 	}
 	if u == bucketURL || u == strings.TrimSuffix(bucketURL, "/") {
 		return "C16/I1/empty-object-name-fetch", fmt.Sprintf("GET %s: the bucket root (empty object name) was requested", u)
@@ -88,9 +99,33 @@ func (q quoteSpec) String() string {
 type evtSpec struct {
 	// Kind: raw | var-ok | var-missing | var-short | local | uri | type99 | filler | measured
 	Kind  string `json:"kind"`
-	Match bool   `json:"match"` // manufacturer string equals the GCE one (else "Other Corp")
+	Match bool   `json:"match"` // firmware manufacturer string equals the GCE one (else "Other Corp")
 	Idx   int    `json:"idx"`
+	// Man, when set, is the firmware manufacturer string verbatim (near misses of the GCE string).
+	Man string `json:"man,omitempty"`
+	// Plat, when set, is the PLATFORM manufacturer string (default: same as the firmware one). The
+	// filter is on the firmware manufacturer, so this string must not influence anything.
+	Plat string `json:"plat,omitempty"`
 }
+
+// fwMan is the firmware manufacturer string the event carries.
+func (s evtSpec) fwMan() string {
+	if s.Man != "" {
+		return s.Man
+	}
+	if s.Match {
+		return extract.GCEFirmwareManufacturer
+	}
+	return otherManufacturer
+}
+
+// selectedBy says whether the manufacturer filter (option value; "" = any) selects the event: exact
+// string equality on the firmware manufacturer.
+func (s evtSpec) selectedBy(filter string) bool { return filter == "" || s.fwMan() == filter }
+
+// nearMisses are firmware manufacturer strings that differ from the GCE one in case, by a prefix /
+// suffix / superstring relation or by white space.
+var nearMisses = []string{"Google, Inc", "Not Google, Inc.", "google, inc.", "Google, Inc. ", "GOOGLE, INC.", "Google"}
 
 type logSpec struct {
 	// Mode: none | missing | dir | garbage | emptyfile | valid
@@ -109,6 +144,9 @@ type srcCase struct {
 	Getter string `json:"getter"`
 	Force  bool   `json:"force"`
 	CLI    bool   `json:"cli,omitempty"`
+	// NoReader: no UEFI variable reader is configured (library: Options.UEFIVariableReader nil; CLI:
+	// Backend.MakeEfiVariableReader nil).
+	NoReader bool `json:"no_reader,omitempty"`
 }
 
 func (c *srcCase) String() string { b, _ := json.Marshal(c); return string(b) }
@@ -290,6 +328,9 @@ type srcEnv struct {
 	efi     string
 	logPath string
 	dirPath string
+	// what logPath currently holds (rendering of the logSpec), so that consecutive cases with the same
+	// log do not rewrite the file
+	onDisk string
 }
 
 func newEnv(t testing.TB) *srcEnv {
@@ -337,13 +378,14 @@ func uriData(idx int) []byte {
 }
 
 func buildEvent(s evtSpec, pos int) *eventlog.TCGPCREvent2 {
-	man := otherManufacturer
-	if s.Match {
-		man = extract.GCEFirmwareManufacturer
+	man := s.fwMan()
+	plat := man
+	if s.Plat != "" {
+		plat = s.Plat
 	}
 	sp := &eventlog.SP800155Event3{
 		PlatformManufacturerID:  11129,
-		PlatformManufacturerStr: eventlog.ByteSizedCStr{Data: man},
+		PlatformManufacturerStr: eventlog.ByteSizedCStr{Data: plat},
 		PlatformModel:           eventlog.ByteSizedCStr{Data: "model"},
 		FirmwareManufacturerStr: eventlog.ByteSizedCStr{Data: man},
 		FirmwareManufacturerID:  11129,
@@ -380,6 +422,13 @@ func buildEvent(s evtSpec, pos int) *eventlog.TCGPCREvent2 {
 }
 
 func (e *srcEnv) logLocation(l logSpec) string {
+	if l.Mode == "garbage" || l.Mode == "emptyfile" || l.Mode == "valid" {
+		b, _ := json.Marshal(l)
+		if e.onDisk == string(b) {
+			return e.logPath
+		}
+		e.onDisk = string(b)
+	}
 	switch l.Mode {
 	case "none":
 		return ""
@@ -486,11 +535,15 @@ func runCase(c *srcCase, env *srcEnv) (outcome, quoteTruth, quoteTruth, []byte, 
 	}
 	loc := env.logLocation(c.Log)
 	if c.CLI {
-		if prov == nil {
-			panic("harness: the CLI always has a provider")
-		}
 		mio := &cliIO{files: map[string][]byte{}, outs: map[string]*cliWriter{}}
-		b := &gcmd.Backend{Provider: prov, IO: mio, MakeEfiVariableReader: func(p string) exel.VariableReader { return exel.MakeEfiVarFSReader(p) }}
+		b := &gcmd.Backend{IO: mio}
+		if prov != nil {
+			// outside a TEE the real backend has no provider at all (an untyped nil)
+			b.Provider = prov
+		}
+		if !c.NoReader {
+			b.MakeEfiVariableReader = func(p string) exel.VariableReader { return exel.MakeEfiVarFSReader(p) }
+		}
 		if g != nil {
 			b.Getter = g
 		}
@@ -516,9 +569,11 @@ func runCase(c *srcCase, env *srcEnv) (outcome, quoteTruth, quoteTruth, []byte, 
 		opts := &extract.Options{
 			FirmwareManufacturer: c.Manufacturer,
 			EventLogLocation:     loc,
-			UEFIVariableReader:   exel.MakeEfiVarFSReader(env.efi),
 			Quote:                qb,
 			ForceFetch:           c.Force,
+		}
+		if !c.NoReader {
+			opts.UEFIVariableReader = exel.MakeEfiVarFSReader(env.efi)
 		}
 		if prov != nil {
 			opts.Provider = prov
@@ -542,10 +597,13 @@ func runCase(c *srcCase, env *srcEnv) (outcome, quoteTruth, quoteTruth, []byte, 
 
 type verdict struct{ Key, Msg string }
 
+var notedNoReaderPanic bool
+
 // classifiedEntry asks the repository's own format detection what it makes of the quote and returns
-// the GCE certificate-table entry of a quote it classifies as SEV-SNP (nil otherwise). Using the
-// implementation's classifier for the *premise* of I2 keeps wire-format ambiguities from turning
-// into false alarms.
+// the GCE certificate-table entry of a quote it classifies as SEV-SNP (nil otherwise). It only
+// defines the premise of I2 for the one rendering whose reading the repository documents as
+// deliberately refused (see ambiguousRendering); every other rendering is judged against what the
+// harness put into it.
 func classifiedEntry(quote []byte) []byte {
 	if len(quote) == 0 {
 		return nil
@@ -563,13 +621,47 @@ func classifiedEntry(quote []byte) []byte {
 	return entry
 }
 
+// ambiguousRendering: a serialized sevsnp.Attestation whose report measurement is not 48 bytes. The
+// repository documents (extract.Attestation: "disallow a bad measurement deserialization") that it
+// does not accept that message as an attestation because a serialized Report parses as one too; what
+// the bytes are then read as is a matter of proto wire format.
+func ambiguousRendering(q quoteSpec) bool {
+	return q.Kind == "snp" && q.Format == "snpproto" && q.MLen != fullLength
+}
+
+// premiseEntry is the premise "the attestation carries a certificate-table entry" of I2: the entry
+// the harness built into the rendering (how = "truth"), or for the ambiguous rendering what the
+// repository's classifier finds (how = "classifier").
+func premiseEntry(q quoteSpec, tr quoteTruth, raw []byte) (entry []byte, how string) {
+	if tr.Entry == nil {
+		return nil, ""
+	}
+	if ambiguousRendering(q) {
+		if e := classifiedEntry(raw); len(e) > 0 {
+			return e, "classifier"
+		}
+		return nil, "ambiguous-unread"
+	}
+	return tr.Entry, "truth"
+}
+
 type logTruth struct {
-	sel      string   // what the event log offers first: none | unreadable | raw | var-ok | var-bad | local | uri | nomatch
-	raws     [][]byte // payloads of the visible matching raw locators
-	varWant  []byte   // payload of the first visible matching variable locator when it resolves
-	laterVar bool     // the first matching variable locator does not resolve but a later one does
-	uris     []string // every URI locator in the log (matching or not)
-	locals   [][]byte // every payload the log could yield locally (provenance)
+	sel       string   // what the event log offers first: none | unreadable | raw | var-ok | var-bad | var-noreader | local | uri | nomatch
+	raws      [][]byte // payloads of the visible selected raw locators
+	varOKs    [][]byte // payloads of the visible selected variable locators that resolve
+	laterVar  bool     // the first selected variable locator does not resolve but a later one does
+	uris      []string // every URI locator in the log (selected by the filter or not)
+	matchURIs []string // the URI locators the manufacturer filter selects
+	locals    [][]byte // every payload the log could yield locally (provenance)
+	nearMiss  bool     // the log holds an SP800-155 event whose manufacturer is a near miss of the filter
+}
+
+func nearMissOf(a, b string) bool {
+	if a == b || a == "" || b == "" {
+		return false
+	}
+	la, lb := strings.ToLower(strings.TrimSpace(a)), strings.ToLower(strings.TrimSpace(b))
+	return strings.Contains(la, lb) || strings.Contains(lb, la)
 }
 
 func (c *srcCase) logTruth() logTruth {
@@ -584,13 +676,19 @@ func (c *srcCase) logTruth() logTruth {
 		return lt
 	}
 	var firstVar *evtSpec
-	hasLocal, hasURI := false, false
+	hasLocal := false
 	for i := range c.Log.Events {
 		s := &c.Log.Events[i]
+		if s.Kind == "filler" {
+			continue
+		}
 		if s.Kind == "uri" {
 			lt.uris = append(lt.uris, string(uriData(s.Idx)))
 		}
-		match := c.Manufacturer == "" || (s.Match && c.Manufacturer == extract.GCEFirmwareManufacturer) || (!s.Match && c.Manufacturer == otherManufacturer)
+		match := s.selectedBy(c.Manufacturer)
+		if !match && s.Kind != "measured" && s.Kind != "type99" && (nearMissOf(s.fwMan(), c.Manufacturer) || (s.Plat != "" && s.Plat == c.Manufacturer)) {
+			lt.nearMiss = true
+		}
 		switch s.Kind {
 		case "raw":
 			lt.locals = append(lt.locals, rawData(s.Idx))
@@ -598,8 +696,13 @@ func (c *srcCase) logTruth() logTruth {
 				lt.raws = append(lt.raws, rawData(s.Idx))
 			}
 		case "var-ok":
-			lt.locals = append(lt.locals, varPayload(s.Idx))
+			if !c.NoReader {
+				lt.locals = append(lt.locals, varPayload(s.Idx))
+			}
 			if match {
+				if !c.NoReader {
+					lt.varOKs = append(lt.varOKs, varPayload(s.Idx))
+				}
 				if firstVar == nil {
 					firstVar = s
 				} else if firstVar.Kind != "var-ok" {
@@ -613,20 +716,23 @@ func (c *srcCase) logTruth() logTruth {
 		case "local":
 			hasLocal = hasLocal || match
 		case "uri":
-			hasURI = hasURI || match
+			if match {
+				lt.matchURIs = append(lt.matchURIs, string(uriData(s.Idx)))
+			}
 		}
 	}
 	switch {
 	case len(lt.raws) > 0:
 		lt.sel = "raw"
+	case firstVar != nil && c.NoReader:
+		lt.sel = "var-noreader"
 	case firstVar != nil && firstVar.Kind == "var-ok":
 		lt.sel = "var-ok"
-		lt.varWant = varPayload(firstVar.Idx)
 	case firstVar != nil:
 		lt.sel = "var-bad"
 	case hasLocal:
 		lt.sel = "local"
-	case hasURI:
+	case len(lt.matchURIs) > 0:
 		lt.sel = "uri"
 	default:
 		lt.sel = "nomatch"
@@ -646,61 +752,115 @@ func member(b []byte, set [][]byte) bool {
 	return false
 }
 
+func fullLen(tr quoteTruth) bool { return tr.Tech != "" && len(tr.M) == fullLength }
+
+// judged is what judge found out about a case besides the verdicts.
+type judged struct {
+	class   string
+	premise string // which clause of I2 was demanded: "" | raw | variable | entry:<who>:<rendering>[:classifier]
+}
+
 // judge checks I1-I3 on one outcome. It returns the violated clauses in the order I1, panic, I2/I3,
 // provenance; the caller reports the first one that is not a known finding.
-func judge(c *srcCase, o outcome, qt, pt quoteTruth, qb, pb []byte) (vs []verdict, class string) {
+func judge(c *srcCase, o outcome, qt, pt quoteTruth, qb, pb []byte) (vs []verdict, j judged) {
 	lt := c.logTruth()
 	desc := func() string {
 		return fmt.Sprintf(" | case %s | result %q err %v | requests %v | provider calls %d", c, clip(o.out), o.err, o.urls, o.provCalls)
 	}
 	if o.pan != nil {
-		return []verdict{{"C16/panic", fmt.Sprintf("extraction panicked: %v%s", o.pan, desc())}}, "panic"
+		if c.NoReader && lt.sel == "var-noreader" && !c.Force {
+			// Totality is C07's subject; C16 only judges what comes back and what is requested. A log
+			// that selects a variable locator while no reader is configured is written down, not judged.
+			if !notedNoReaderPanic {
+				notedNoReaderPanic = true
+				ev.Note("C16 observation (not judged here, totality is C07's subject): extraction without a UEFI variable reader panics when the event log selects a UEFI-variable locator (%v); first case: %s", o.pan, c)
+			}
+			return nil, judged{class: "inconclusive/panic-variable-locator-without-reader"}
+		}
+		return []verdict{{"C16/panic", fmt.Sprintf("extraction panicked: %v%s", o.pan, desc())}}, judged{class: "panic"}
 	}
 	// I1
 	allowed := map[string]bool{}
+	logURIs := map[string]bool{}
 	for _, u := range lt.uris {
-		allowed[u] = true
+		logURIs[u] = true
+	}
+	if !c.Force && lt.sel == "uri" {
+		for _, u := range lt.matchURIs {
+			allowed[u] = true
+		}
 	}
 	for _, tr := range []quoteTruth{qt, pt} {
-		if tr.Tech != "" && len(tr.M) == fullLength {
+		if fullLen(tr) {
 			allowed[refURL(tr.Tech, tr.M)] = true
 		}
 	}
 	for _, u := range o.urls {
-		if key, msg := judgeURL(u, allowed); key != "" {
+		if key, msg := judgeURLWithLog(u, allowed, logURIs); key != "" {
 			vs = append(vs, verdict{key, msg + desc()})
 		}
 	}
-	class = "error"
+	j.class = "error"
 	if o.err == nil {
-		class = "fetched"
+		j.class = "fetched"
+	}
+	provenance := func() [][]byte {
+		prov := append([][]byte{}, o.bodies...)
+		prov = append(prov, lt.locals...)
+		for _, e := range [][]byte{qt.Entry, pt.Entry} {
+			if e != nil {
+				prov = append(prov, e)
+			}
+		}
+		return prov
 	}
 	if c.Force {
-		// I3
-		if o.err == nil && !member(o.out, o.bodies) {
-			vs = append(vs, verdict{"C16/I3/forced-fetch-returned-unfetched-bytes", "forced fetch succeeded with bytes that no request of this run returned" + desc()})
+		// I3: a forced fetch that can succeed (working getter, a full-length measurement in the supplied
+		// quote or, failing that, in the provider's) returns what it fetched. When it cannot, falling
+		// back to local evidence is not against the statement; inventing bytes is.
+		j.class = "force/" + j.class
+		if o.err == nil {
+			fetchable := c.Getter == "ok" && (fullLen(qt) || (c.Provider == "ok" && fullLen(pt)))
+			switch {
+			case member(o.out, o.bodies):
+			case fetchable:
+				vs = append(vs, verdict{"C16/I3/forced-fetch-returned-unfetched-bytes", "forced fetch with a working getter and a full-length measurement succeeded with bytes that no request of this run returned" + desc()})
+			case !member(o.out, provenance()):
+				vs = append(vs, verdict{"C16/result-provenance", "forced fetch: the result is neither local evidence nor a body any request returned" + desc()})
+			default:
+				j.class = "force/local-fallback"
+			}
 		}
-		return vs, "force/" + class
+		return vs, j
 	}
 	// I2
 	var want [][]byte
 	src := ""
 	switch lt.sel {
 	case "raw":
-		want, src = lt.raws, "raw locator"
+		want, src, j.premise = lt.raws, "raw locator", "raw"
 	case "var-ok":
-		want, src = [][]byte{lt.varWant}, "UEFI-variable locator"
+		want, src, j.premise = lt.varOKs, "UEFI-variable locator", "variable"
 	default:
-		if e := classifiedEntry(qb); len(e) > 0 {
-			want, src = [][]byte{e}, "certificate-table entry of the supplied quote"
+		if e, how := premiseEntry(c.Quote, qt, qb); len(e) > 0 {
+			want, src, j.premise = [][]byte{e}, "certificate-table entry of the supplied quote", "entry:supplied:"+c.Quote.String()+":"+how
+		} else if how == "ambiguous-unread" {
+			j.premise = "unjudged:supplied:" + c.Quote.String() + ":ambiguous"
 		} else if len(qb) == 0 && c.Provider == "ok" {
-			if e := classifiedEntry(pb); len(e) > 0 {
-				want, src = [][]byte{e}, "certificate-table entry of the provider's quote"
+			if e, how := premiseEntry(c.ProviderQuote, pt, pb); len(e) > 0 {
+				want, src, j.premise = [][]byte{e}, "certificate-table entry of the provider's quote", "entry:provider:"+c.ProviderQuote.String()+":"+how
+			} else if how == "ambiguous-unread" {
+				j.premise = "unjudged:provider:" + c.ProviderQuote.String() + ":ambiguous"
 			}
+		}
+		if want != nil && lt.sel == "var-bad" {
+			// an implementation that goes on to a later variable locator that does resolve also
+			// returns local evidence without touching the network
+			want = append(want, lt.varOKs...)
 		}
 	}
 	if want != nil {
-		class = "local/" + strings.Fields(src)[0]
+		j.class = "local/" + strings.Fields(src)[0]
 		if len(o.urls) > 0 {
 			key := "C16/I2/network-used-despite-local-evidence"
 			if lt.sel == "uri" {
@@ -710,28 +870,21 @@ func judge(c *srcCase, o outcome, qt, pt quoteTruth, qb, pb []byte) (vs []verdic
 		} else if o.err != nil || !member(o.out, want) {
 			vs = append(vs, verdict{"C16/I2/local-evidence-not-returned", fmt.Sprintf("no forced fetch and local evidence exists (%s = %q) but it was not what came back", src, clip(want[0])) + desc()})
 		}
-		return vs, class
+		return vs, j
 	}
 	// No local evidence the statement speaks about: whatever comes back must have come from somewhere.
 	if o.err == nil {
-		prov := append([][]byte{}, o.bodies...)
-		prov = append(prov, lt.locals...)
-		for _, e := range [][]byte{qt.Entry, pt.Entry} {
-			if e != nil {
-				prov = append(prov, e)
-			}
-		}
-		if !member(o.out, prov) {
+		if !member(o.out, provenance()) {
 			vs = append(vs, verdict{"C16/result-provenance", "the result is neither local evidence nor a body any request returned" + desc()})
 		}
 		if !member(o.out, o.bodies) {
-			class = "local/other"
+			j.class = "local/other"
 		}
 	}
 	if lt.laterVar {
-		class += "/later-variable-unjudged"
+		j.class += "/later-variable-unjudged"
 	}
-	return vs, class
+	return vs, j
 }
 
 func (c *srcCase) sources() int {
@@ -761,11 +914,12 @@ func report(t ev.TB, vs []verdict) bool {
 	return len(vs) > 0
 }
 
-const srcRule = "extract.Endorsement (and, for a share of the cases that have a provider, the CLI `extract` command through VerifMakeRoot) on: event log {absent, missing file, directory, garbage, empty file, valid log} where a valid log holds SP800-155 events with raw / resolvable variable / unresolvable variable / malformed variable / local / URI / unknown-type locators, measured (non-informational) SP800-155 payloads and filler events, each with the GCE or a foreign manufacturer string, under manufacturer filter {GCE, any, foreign}; supplied quote {none, empty, garbage pool, SEV-SNP as go-tpm-tools wrapper / sevsnp.Attestation / sevsnp.Report / raw report+cert table / raw report / hex / base64, bare cert table, TDX raw / wrapper / hex} with the GCE cert-table entry present or not and measurement lengths {48, 0, 1, 32, 47, 49, 64} where the format can carry them; provider {absent, failing, returning any of those}; getter {absent, failing, recording}; forced fetch on/off. Real efivarfs reader on a scratch root with a fixed pool of variables. Oracle: I1 every requested URL is a URI locator of the log or bucket+ovmf_x64_csm/<tech>/<hex>.binarypb of a 48-byte measurement the harness put into the supplied or provider quote (root-cause keys: empty object name, short measurement, unrelated); I2 without forced fetch, if the log's first manufacturer-matching locator in the order raw>variable>local>URI is a raw one the result is one of the matching raw payloads, if it is a resolvable variable the result is that file minus its 4-byte header, else if extract.Attestation classifies the supplied quote (or, with no supplied quote, the provider's) as SEV-SNP with a GCE cert-table entry the result is that entry - and in all three situations the getter log is empty; I3 with forced fetch a success is a body returned by a request of this run; otherwise a success is a fetched body or one of the local payloads; no panic. non-trivial = >=2 sources present or forced fetch; distinct = the case"
+const srcRule = "extract.Endorsement (and, for a third of the cases, the CLI `extract` command through VerifMakeRoot, with Backend.Provider nil when there is no provider) on: event log {absent, missing file, directory, garbage, empty file, valid log} where a valid log holds SP800-155 events with raw / resolvable variable / unresolvable variable / malformed variable / local / URI / unknown-type locators, measured (non-informational) SP800-155 payloads and filler events, each with the GCE firmware manufacturer string, a foreign one or a near miss of the GCE one (prefix, superstring, other case, trailing blank) and sometimes a platform manufacturer string that says the opposite, under manufacturer filter {GCE, any, foreign, a near miss, one no event carries}; supplied quote {none, empty, garbage pool, SEV-SNP as go-tpm-tools wrapper / sevsnp.Attestation / sevsnp.Report / raw report+cert table / raw report / hex / base64, bare cert table, TDX raw / wrapper / hex} with the GCE cert-table entry present or not and measurement lengths {48, 0, 1, 32, 47, 49, 64} where the format can carry them; provider {absent, failing, returning any of those}; getter {absent, failing, recording}; forced fetch on/off; UEFI variable reader configured (real efivarfs reader on a scratch root with a fixed pool of variables) or not (library: nil; CLI: no MakeEfiVariableReader). Oracle: I1 every requested URL is bucket+ovmf_x64_csm/<tech>/<hex>.binarypb of a 48-byte measurement the harness put into the supplied or provider quote, or - only without forced fetch and only when a URI locator is what the log selects (first kind in raw>variable>local>URI that has an event passing the filter, compared by exact equality on the FIRMWARE manufacturer) - one of the selected URI locators (root-cause keys: empty object name, short measurement, eventlog-uri-not-selected, unrelated); I2 without forced fetch, if the log selects a raw locator the result is one of the selected raw payloads, if it selects a variable locator and the first one resolves the result is the payload (file minus 4-byte header) of a selected resolvable variable, else if the supplied quote (or, with no supplied quote, the provider's) carries the GCE cert-table entry BY CONSTRUCTION of the rendering (only for a serialized sevsnp.Attestation with a measurement that is not 48 bytes, which the repository documents it refuses, the repository's own classification decides) the result is that entry (or, when the first variable locator did not resolve, the payload of a later one that does) - and in all these situations the getter log is empty; I3 with forced fetch, a working getter and a full-length measurement in the supplied quote (or else the provider's) a success is a body returned by a request of this run; in every other situation a success is a fetched body or one of the local payloads; no panic (a log that selects a variable locator while no reader is configured is counted as inconclusive: totality is C07's). non-trivial = >=2 sources present or forced fetch; distinct = the case"
 
 func evalCase(t ev.TB, name string, c *srcCase, env *srcEnv) {
 	o, qt, pt, qb, pb := runCase(c, env)
-	vs, class := judge(c, o, qt, pt, qb, pb)
+	vs, j := judge(c, o, qt, pt, qb, pb)
+	class := j.class
 	lt := c.logTruth()
 	if len(vs) > 0 {
 		class = "known-violation/" + strings.TrimPrefix(vs[0].Key, "C16/")
@@ -778,12 +932,26 @@ func evalCase(t ev.TB, name string, c *srcCase, env *srcEnv) {
 	ev.Class(name, "quote:"+c.Quote.Kind)
 	ev.Class(name, "provider:"+c.Provider)
 	ev.Class(name, "getter:"+c.Getter)
+	if j.premise != "" {
+		ev.Class(name, "I2-premise/"+j.premise)
+	}
+	if lt.nearMiss {
+		ev.Class(name, "manufacturer:near-miss-in-log")
+	}
 	if c.Force {
 		ev.Class(name, "force:on")
 	}
+	entry := "entry:library"
 	if c.CLI {
-		ev.Class(name, "entry:cli")
+		entry = "entry:cli"
 	}
+	if c.Provider == "absent" {
+		entry += "/no-provider"
+	}
+	if c.NoReader {
+		entry += "/no-variable-reader"
+	}
+	ev.Class(name, entry)
 	report(t, vs)
 }
 
@@ -813,34 +981,55 @@ func genQuote(t *rapid.T, label string, allowNone bool) quoteSpec {
 	return validQuote(q)
 }
 
-var evtKinds = []string{"raw", "var-ok", "var-missing", "var-short", "local", "uri", "uri", "type99", "filler", "measured"}
+// rapid favours the early elements of a SampledFrom list, so the shapes that matter come first.
+var evtKinds = []string{"raw", "var-ok", "uri", "var-missing", "local", "uri", "var-short", "measured", "type99", "filler"}
+
+func genEvent(t *rapid.T) evtSpec {
+	s := evtSpec{
+		Kind: rapid.SampledFrom(evtKinds).Draw(t, "evKind"),
+		Idx:  rapid.IntRange(0, 9).Draw(t, "evIdx"),
+	}
+	switch rapid.SampledFrom([]string{"gce", "near", "gce", "other", "gce"}).Draw(t, "evMan") {
+	case "gce":
+		s.Match = true
+	case "near":
+		s.Man = rapid.SampledFrom(nearMisses).Draw(t, "evNearMiss")
+	}
+	if rapid.IntRange(0, 3).Draw(t, "evPlat") == 0 {
+		// a platform manufacturer that says the opposite of the firmware manufacturer
+		s.Plat = extract.GCEFirmwareManufacturer
+		if s.fwMan() == extract.GCEFirmwareManufacturer {
+			s.Plat = otherManufacturer
+		}
+	}
+	return s
+}
 
 func genCase(t *rapid.T) *srcCase {
 	c := &srcCase{}
-	c.Log.Mode = rapid.SampledFrom([]string{"none", "none", "missing", "dir", "garbage", "emptyfile", "valid", "valid", "valid", "valid", "valid", "valid", "valid", "valid", "valid", "valid"}).Draw(t, "logMode")
+	c.Log.Mode = rapid.SampledFrom([]string{"valid", "valid", "valid", "valid", "valid", "valid", "valid", "valid", "valid", "valid", "valid", "none", "missing", "garbage", "dir", "emptyfile"}).Draw(t, "logMode")
 	if c.Log.Mode == "valid" {
-		n := rapid.IntRange(0, 6).Draw(t, "nEvents")
+		n := rapid.SampledFrom([]int{2, 1, 3, 4, 2, 3, 5, 6, 0}).Draw(t, "nEvents")
 		for i := 0; i < n; i++ {
-			c.Log.Events = append(c.Log.Events, evtSpec{
-				Kind:  rapid.SampledFrom(evtKinds).Draw(t, "evKind"),
-				Match: rapid.IntRange(0, 4).Draw(t, "evMatch") != 0,
-				Idx:   rapid.IntRange(0, 9).Draw(t, "evIdx"),
-			})
+			c.Log.Events = append(c.Log.Events, genEvent(t))
 		}
 	}
-	c.Manufacturer = rapid.SampledFrom([]string{extract.GCEFirmwareManufacturer, extract.GCEFirmwareManufacturer, extract.GCEFirmwareManufacturer, "", "", otherManufacturer, "Nobody Ltd"}).Draw(t, "manufacturer")
+	g := extract.GCEFirmwareManufacturer
+	c.Manufacturer = rapid.SampledFrom([]string{g, g, "", g, "near", g, otherManufacturer, g, "Nobody Ltd"}).Draw(t, "manufacturer")
+	if c.Manufacturer == "near" {
+		c.Manufacturer = rapid.SampledFrom(nearMisses).Draw(t, "filterNearMiss")
+	}
 	c.Quote = genQuote(t, "q", true)
-	c.Provider = rapid.SampledFrom([]string{"absent", "fail", "ok", "ok"}).Draw(t, "provider")
+	c.Provider = rapid.SampledFrom([]string{"ok", "absent", "ok", "fail"}).Draw(t, "provider")
 	if c.Provider == "ok" {
 		c.ProviderQuote = genQuote(t, "p", false)
 	} else {
 		c.ProviderQuote = quoteSpec{Kind: "none"}
 	}
-	c.Getter = rapid.SampledFrom([]string{"absent", "fail", "ok", "ok"}).Draw(t, "getter")
-	c.Force = rapid.IntRange(0, 2).Draw(t, "force") == 0
-	if c.Provider != "absent" {
-		c.CLI = rapid.IntRange(0, 3).Draw(t, "cli") == 0
-	}
+	c.Getter = rapid.SampledFrom([]string{"ok", "ok", "fail", "absent"}).Draw(t, "getter")
+	c.Force = rapid.IntRange(0, 2).Draw(t, "force") == 2
+	c.CLI = rapid.IntRange(0, 2).Draw(t, "cli") == 2
+	c.NoReader = rapid.IntRange(0, 5).Draw(t, "noReader") == 5
 	return c
 }
 
@@ -858,7 +1047,7 @@ func TestSources(t *testing.T) {
 // SP800-155 events x every quote rendering x every provider answer x getter x forced fetch.
 func TestSourcesGrid(t *testing.T) {
 	const name = "sources/grid"
-	ev.Rule(name, "complete enumeration of {no log, missing, garbage, valid-empty, one event of each kind x manufacturer match/mismatch, every ordered pair of distinct matching locator kinds} x {every supplied-quote rendering incl. none/garbage/short-measurement ones} x {provider absent, failing, returning 5 representative quotes} x {getter absent, failing, recording} x forced fetch, GCE manufacturer filter, library entry point. "+srcRule)
+	ev.Rule(name, "complete enumeration of {no log, missing, garbage, valid-empty, one event of each kind x manufacturer match/mismatch, every ordered pair of distinct matching locator kinds, one raw/variable/URI event with each of three near-miss manufacturer strings, raw/URI events whose platform manufacturer contradicts the firmware manufacturer} x {every supplied-quote rendering incl. none/garbage/short-measurement ones} x {provider absent, failing, returning 5 representative quotes} x {getter absent, failing, recording} x forced fetch, GCE manufacturer filter, library entry point; every 5th case is repeated through the CLI and every 7th without a UEFI variable reader (alternately library / CLI). "+srcRule)
 	env := newEnv(t)
 	var replay srcCase
 	if ev.ReplayCase("TestSourcesGrid", &replay) {
@@ -883,6 +1072,18 @@ func TestSourcesGrid(t *testing.T) {
 			}
 		}
 	}
+	// near misses of the manufacturer string and a platform manufacturer that contradicts the firmware
+	// manufacturer: none of these events is selected by the GCE filter (the last one is)
+	for _, k := range []string{"raw", "var-ok", "uri"} {
+		for _, m := range []string{"Not Google, Inc.", "google, inc.", "Google, Inc"} {
+			logs = append(logs, logSpec{Mode: "valid", Events: []evtSpec{{Kind: k, Man: m, Idx: 1}}})
+		}
+	}
+	logs = append(logs,
+		logSpec{Mode: "valid", Events: []evtSpec{{Kind: "raw", Match: false, Plat: extract.GCEFirmwareManufacturer, Idx: 1}}},
+		logSpec{Mode: "valid", Events: []evtSpec{{Kind: "uri", Match: false, Plat: extract.GCEFirmwareManufacturer, Idx: 1}}},
+		logSpec{Mode: "valid", Events: []evtSpec{{Kind: "raw", Match: true, Plat: otherManufacturer, Idx: 1}}},
+	)
 	quotes := []quoteSpec{{Kind: "none"}, {Kind: "garbage", Seed: 0}, {Kind: "garbage", Seed: 5}}
 	for _, f := range []string{"tpm", "snpproto", "raw", "rawhex", "rawb64"} {
 		for _, e := range []bool{false, true} {
@@ -935,18 +1136,35 @@ func TestSourcesGrid(t *testing.T) {
 						if idx%nshards != shard%nshards {
 							continue
 						}
-						c := &srcCase{Log: l, Manufacturer: extract.GCEFirmwareManufacturer, Quote: validQuote(q), Provider: p.mode, ProviderQuote: validQuote(p.q), Getter: g, Force: force}
-						// collect unknown keys instead of stopping at the first
-						col := &collector{}
-						evalCase(col, name, c, env)
-						if col.key != "" {
-							h := hits[col.key]
-							if h == nil {
-								h = &hit{first: *c, msg: col.msg}
-								hits[col.key] = h
-								order = append(order, col.key)
+						base := srcCase{Log: l, Manufacturer: extract.GCEFirmwareManufacturer, Quote: validQuote(q), Provider: p.mode, ProviderQuote: validQuote(p.q), Getter: g, Force: force}
+						variants := []srcCase{base}
+						// a deterministic share of the grid also goes through the CLI and/or runs without a
+						// UEFI variable reader
+						if idx%5 == 0 {
+							v := base
+							v.CLI = true
+							variants = append(variants, v)
+						}
+						if idx%7 == 0 {
+							v := base
+							v.NoReader = true
+							v.CLI = idx%2 == 0
+							variants = append(variants, v)
+						}
+						for vi := range variants {
+							c := &variants[vi]
+							// collect unknown keys instead of stopping at the first
+							col := &collector{}
+							evalCase(col, name, c, env)
+							if col.key != "" {
+								h := hits[col.key]
+								if h == nil {
+									h = &hit{first: *c, msg: col.msg}
+									hits[col.key] = h
+									order = append(order, col.key)
+								}
+								h.n++
 							}
-							h.n++
 						}
 					}
 				}
